@@ -480,6 +480,9 @@ def check_radius(ctx, rng, n):
 
 
 # ----------------------------------------------------------------------------- 4. grab_g_function on real objects
+RB_OFFSETS = [7.0e-4, -5.0e-4, 9.0e-5, -9.0e-5, 9.0e-7, -9.0e-7, 9.9e-4, -2.0e-4]
+
+
 def gen_real_case(rng, k):
     H = round(math.exp(rng.uniform(math.log(20.0), math.log(400.0))), 1)
     alpha = rng.uniform(0.3e-6, 2.0e-6)
@@ -499,7 +502,10 @@ def gen_real_case(rng, k):
                          [(0.0, 0.0), (6.0, 0.0), (0.0, 6.0), (6.0, 6.0)]])
     return {"H": target, "alpha": alpha, "k": ksoil, "heights": heights, "at": at, "coords": coords,
             "dia": rng.choice([0.11, 0.14, 0.15]), "D": rng.choice([0.0, 0.1, 0.5, round(rng.uniform(1.0, 4.0), 1), 2.0]),
-            "rb_ref_factor": rng.choice([1.0, 1.0, 0.8, 1.3]), "pipe": rng.choice(["SINGLEUTUBE", "SINGLEUTUBE", "DOUBLEUTUBEPARALLEL", "COAXIAL"])}
+            "rb_ref_factor": [1.0, 1.0, 0.8, 1.3][k % 4] if k % 3 else 1.0,
+            # library radius within a millimetre / 1e-4 m / 1e-6 m of the borehole radius (not equal): k % 3 == 0
+            "rb_ref_offset": RB_OFFSETS[(k // 3) % len(RB_OFFSETS)] if k % 3 == 0 else 0.0,
+            "rb2_offset": [7.0e-4, -5.0e-4, 2.5e-3, 9.0e-5, -9.0e-7][k % 5], "pipe": rng.choice(["SINGLEUTUBE", "SINGLEUTUBE", "DOUBLEUTUBEPARALLEL", "COAXIAL"])}
 
 
 def real_worker(case):
@@ -512,8 +518,8 @@ def real_worker(case):
     except Exception as e:  # noqa: BLE001
         return {"build_error": f"{type(e).__name__}: {e}"}
     gf = ghe.gFunction
-    if case["rb_ref_factor"] != 1.0:  # curves tabulated for another borehole radius
-        gf.r_b_values = {h: rb * case["rb_ref_factor"] for h, rb in gf.r_b_values.items()}
+    if case["rb_ref_factor"] != 1.0 or case.get("rb_ref_offset", 0.0) != 0.0:  # curves tabulated for another borehole radius
+        gf.r_b_values = {h: rb * case["rb_ref_factor"] + case.get("rb_ref_offset", 0.0) for h, rb in gf.r_b_values.items()}
     boh = ghe.B_spacing / float(ghe.bhe.b.H)
     with warnings.catch_warnings():
         warnings.simplefilter("ignore")
@@ -522,11 +528,21 @@ def real_worker(case):
         except Exception as e:  # noqa: BLE001
             return {"grab_error": type(e).__name__}
         gi, rbv, _, heq = gf.g_function_interpolation(boh)   # table reused
+        # a second borehole radius against the same library (additivity of the correction through grab_g_function)
+        rb1 = ghe.bhe.b.r_b
+        rb2 = rb1 + case.get("rb2_offset", 0.0)
+        ghe.bhe.b.r_b = rb2
+        try:
+            g2, _ = ghe.grab_g_function(boh)
+            gy2 = [float(v) for v in g2.y]
+        except Exception as e:  # noqa: BLE001
+            gy2 = type(e).__name__
+        ghe.bhe.b.r_b = rb1
     rn = ghe.radial_numerical
     return {
         "B": float(gf.B), "d": float(gf.d), "d_in": float(case["D"]), "log_time": [float(v) for v in gf.log_time],
         "curves": [[float(h), float(gf.r_b_values[h]), [float(v) for v in gf.g_lts[h]]] for h in gf.g_lts],
-        "boh": float(boh), "rb_star": float(ghe.bhe.b.r_b),
+        "boh": float(boh), "rb_star": float(ghe.bhe.b.r_b), "rb2": float(rb2), "gy2": gy2,
         "sts": [float(v) for v in rn.lntts.tolist()], "g_sts": [float(v) for v in rn.g.tolist()],
         "gb_sts": [float(v) for v in rn.g_bhw.tolist()],
         "gx": [float(v) for v in g.x], "gy": [float(v) for v in g.y], "bx": [float(v) for v in gb.x], "by": [float(v) for v in gb.y],
@@ -562,7 +578,9 @@ def check_real(ctx, cases, results):
         ctx.count(f"real_branch:{branch}")
         ctx.count(f"real_heights:{n}")
         ctx.count(f"real_at:{c['at']}")
-        ctx.count("real_radius_ratio:" + ("1" if c["rb_ref_factor"] == 1.0 else "other"))
+        lib_rb = r["curves"][0][1]
+        ctx.count("real_radius_gap:" + ("0" if lib_rb == r["rb_star"] else "<1e-6" if abs(lib_rb - r["rb_star"]) < 1e-6 else
+                                        "<1e-4" if abs(lib_rb - r["rb_star"]) < 1e-4 else "<1mm" if abs(lib_rb - r["rb_star"]) < 1e-3 else ">=1mm"))
         ctx.case(("real", c["H"], round(c["alpha"] * 1e9), n, c["at"], branch, c["pipe"], len(c["coords"])), True,
                  {"real_H": c["H"], "alpha": c["alpha"], "heights": c["heights"], "branch": branch, "sts_end": r["sts"][-1],
                   "kept_sts": r["gx"].index(lts[0]) if lts[0] in r["gx"] else None} if i < 4 else None)
@@ -601,14 +619,33 @@ def check_real(ctx, cases, results):
             cv = next(cv for cv in r["curves"] if cv[0] == c["H"])
             shift = float(dec_log(r["rb_star"]) - dec_log(cv[1]))
             if not all(close(a, v - shift) for a, v in zip(r["gy"][nk:], cv[2])):
-                finding(ctx, f"grab-lts-values-n{n}", "long-time part is not the stored curve at this height minus ln(rb*/rb)", rep)
+                dev = max(abs(a - (v - shift)) for a, v in zip(r["gy"][nk:], cv[2]))
+                finding(ctx, f"grab-lts-values-n{n}", f"long-time part is off the stored curve at this height minus ln(rb*/rb) by {dev:.3g} "
+                        f"(borehole radius {r['rb_star']!r}, library radius {cv[1]!r}, ln ratio {shift:.3g})", rep)
+        # two borehole radii against one library: the tails differ by ln(rb2/rb1) exactly (additivity seen through grab)
+        if isinstance(r.get("gy2"), list):
+            d12 = float(dec_log(r["rb2"]) - dec_log(r["rb_star"]))
+            if not all(close(b, a - d12) for a, b in zip(r["gy"][nk:], r["gy2"][nk:])):
+                dev = max(abs(b - (a - d12)) for a, b in zip(r["gy"][nk:], r["gy2"][nk:]))
+                finding(ctx, "grab-radius-additivity", f"long-time parts for borehole radii {r['rb_star']!r} and {r['rb2']!r} against one library "
+                        f"(stored radius {lib_rb!r}) differ from ln(rb2/rb1) by {dev:.3g}", {**rep, "rb2": r["rb2"]})
+        elif "gy2" in r:
+            finding(ctx, f"grab-raises-{r['gy2']}", f"grab_g_function raised {r['gy2']} after the borehole radius changed", rep)
         if not all(close(a, b, 1e-12) for a, b in zip(r["g_at_lts"], r["gy"][nk:])) or \
                 not all(close(a, b, 1e-12) for a, b in zip(r["g_at_sts"], r["gy"][:nk])):
             finding(ctx, "grab-interpolant-at-nodes", "returned interp1d does not reproduce its nodes", rep)
 
 
 # ----------------------------------------------------------------------------- 4b. call histories on one GHE object
-HISTORY_MUTATIONS = ["replace-gfunction", "compute_g_functions", "rb-table", "bhe-radius", "short-time-response", "none"]
+HISTORY_MUTATIONS = ["replace-gfunction", "compute_g_functions", "rb-table", "bhe-radius", "short-time-response", "none",
+                     # in-place changes of the live exchanger that leave H and alpha alone, followed by simulate() (which recomputes the
+                     # short-time response of `bhe.to_single()` — the same object for a single U-tube)
+                     "inplace-bhe-radius+simulate", "inplace-grout-rhoCp+simulate", "inplace-grout-k+simulate", "inplace-pipe-k+simulate",
+                     "inplace-soil-k-same-alpha+simulate",
+                     # compute_g_functions() -> grab -> narrow the height window / change the burial depth -> compute_g_functions() again
+                     "recompute-window", "recompute-depth",
+                     # one GFunction object handed to two GHEs; the first refreshes its family
+                     "shared-gfunction"]
 
 
 def gen_history_case(rng, k):
@@ -617,10 +654,15 @@ def gen_history_case(rng, k):
     lo = round(H * rng.uniform(0.4, 0.7), 1)
     pos = rng.choice(["max", "avg"])
     hi = H if pos == "max" else round(2 * H - lo, 1)       # H is max_height or the average: stored after compute_g_functions
+    if mut.startswith("recompute"):                           # H must be stored in both families: the average of both windows
+        lo = round(H * rng.uniform(0.5, 0.65), 1)
+        hi = round(2 * H - lo, 1)
     return {"mutation": mut, "H": H, "min_h": lo, "max_h": hi, "alpha": rng.uniform(0.4e-6, 1.6e-6), "k": round(rng.uniform(1.2, 3.0), 2),
             "D": rng.choice([0.0, 1.0, 2.0, 4.0]), "dia": rng.choice([0.14, 0.15]),
             "coords": rng.choice([[(0.0, 0.0)], [(0.0, 0.0), (5.0, 0.0)], [(0.0, 0.0), (5.0, 0.0), (0.0, 5.0), (5.0, 5.0)]]),
-            "first_boundary": rng.choice(["UHTR", "UHTR", "UBWT"]), "grabs_before": rng.choice([1, 1, 2]), "factor": rng.choice([0.8, 1.25, 1.5])}
+            "first_boundary": rng.choice(["UHTR", "UHTR", "UBWT"]), "grabs_before": rng.choice([1, 1, 2]),
+            "factor": rng.choice([0.8, 1.25, 1.5, 1.009, 0.993]) if mut in ("rb-table", "bhe-radius") else rng.choice([0.8, 1.25, 1.5]),
+            "narrow": rng.choice([0.4, 0.5, 0.7]), "new_D": rng.choice([0.0, 0.5, 6.0])}
 
 
 def _grab_record(ghe, boh):
@@ -648,9 +690,13 @@ def history_worker(case):
     n = len(coords)
     m_bh = phys["flow"] / 1000.0 * fluid.rho
 
-    def new_ghe(gfun):
+    def new_ghe(gfun, sim_for=None):
         return GHE(phys["flow"] * n, 5.0, bhe_type, fluid, GHEBorehole(case["H"], case["D"], case["dia"] / 2.0, x=0.0, y=0.0), pipe, grout, soil,
-                   gfun, sim, [0.0] * 8760)
+                   gfun, sim if sim_for is None else sim_for, loads)
+
+    sim_for = None
+    loads = [2000.0 * n * math.sin(i / 8760.0 * 2 * math.pi) for i in range(8760)]
+    extra = {}
 
     try:
         with ghelib.quiet(), warnings.catch_warnings():
@@ -664,7 +710,61 @@ def history_worker(case):
                 first = _grab_record(ghe, boh)
             mut = case["mutation"]
             fresh = None
-            if mut == "replace-gfunction":
+            if mut.endswith("+simulate"):
+                from ghedesigner.enums import TimestepType
+                from ghedesigner.radial_numerical_borehole import RadialNumericalBH
+
+                ghe.simulate(method=TimestepType.HYBRID)
+                first = _grab_record(ghe, boh)
+                what = mut.split("+")[0]
+                if what == "inplace-bhe-radius":
+                    ghe.bhe.b.r_b = ghe.bhe.b.r_b * case["factor"] if case["factor"] < 1.3 else ghe.bhe.b.r_b * 1.25
+                elif what == "inplace-grout-rhoCp":
+                    ghe.bhe.grout.rhoCp = ghe.bhe.grout.rhoCp / (2.0 * case["factor"])
+                elif what == "inplace-grout-k":
+                    ghe.bhe.grout.k = ghe.bhe.grout.k * case["factor"]
+                elif what == "inplace-pipe-k":
+                    ghe.bhe.pipe.k = ghe.bhe.pipe.k * case["factor"]
+                elif what == "inplace-soil-k-same-alpha":
+                    ghe.bhe.soil.k = ghe.bhe.soil.k * case["factor"]
+                    ghe.bhe.soil.rhoCp = ghe.bhe.soil.rhoCp * case["factor"]
+                ghe.simulate(method=TimestepType.HYBRID)
+                # the short-time response of the exchanger as it is NOW, from a new radial model
+                fr = RadialNumericalBH(ghe.bhe_eq)
+                fr.calc_sts_g_functions(ghe.bhe_eq)
+                extra["fresh_sts"] = {"x": [float(v) for v in fr.lntts.tolist()], "g": [float(v) for v in fr.g.tolist()],
+                                      "gb": [float(v) for v in fr.g_bhw.tolist()]}
+            elif mut in ("recompute-window", "recompute-depth"):
+                ghe.compute_g_functions()
+                first = _grab_record(ghe, boh)
+                if mut == "recompute-window":
+                    half = (case["H"] - case["min_h"]) * case["narrow"]
+                    ghe.sim_params.min_height, ghe.sim_params.max_height = case["H"] - half, case["H"] + half
+                else:
+                    ghe.bhe.b.D = case["new_D"]
+                ghe.compute_g_functions()
+                gfn = ghe.gFunction
+                extra["at_stored"] = []
+                for h in list(gfn.g_lts):
+                    gi_h = gfn.g_function_interpolation(gfn.B / h)[0]
+                    extra["at_stored"].append({"h": float(h), "got": [float(v) for v in gi_h], "stored": [float(v) for v in gfn.g_lts[h]]})
+                # a fresh GHE brought to the same final state by one compute_g_functions()
+                sim2 = SimulationParameters(1, 12, 35.0, 5.0, ghe.sim_params.max_height, ghe.sim_params.min_height)
+                g1 = calc_g_func_for_multiple_lengths(5.0, [case["H"]], borehole.r_b, ghe.bhe.b.D, m_bh, bhe_type, eskilson_log_times(), coords,
+                                                      fluid, pipe, grout, soil, boundary=case["first_boundary"])
+                fg = GHE(phys["flow"] * n, 5.0, bhe_type, fluid, GHEBorehole(case["H"], ghe.bhe.b.D, case["dia"] / 2.0, x=0.0, y=0.0), pipe, grout,
+                         soil, g1, sim2, loads)
+                fg.compute_g_functions()
+                extra["fresh_final"] = _grab_record(fg, boh)
+            elif mut == "shared-gfunction":
+                other = new_ghe(g0)                    # second exchanger holding the same GFunction object
+                before = _grab_record(other, boh)
+                keys_before = sorted(float(h) for h in g0.g_lts)
+                ghe.compute_g_functions()              # the first one refreshes its family
+                extra["shared"] = {"before": before, "after": _grab_record(other, boh), "keys_before": keys_before,
+                                   "keys_after": sorted(float(h) for h in other.gFunction.g_lts),
+                                   "same_object_still": other.gFunction is g0, "first_has_new_object": ghe.gFunction is not g0}
+            elif mut == "replace-gfunction":
                 old = ghe.gFunction
                 ghe.gFunction = GFunction(b=old.B, d=old.d, r_b_values=dict(old.r_b_values),
                                           g_lts={h: [v * case["factor"] + 0.3 for v in g] for h, g in old.g_lts.items()},
@@ -695,7 +795,7 @@ def history_worker(case):
             "B": float(gf.B), "d": float(gf.d), "log_time": [float(v) for v in gf.log_time],
             "curves": [[float(h), float(gf.r_b_values[h]), [float(v) for v in gf.g_lts[h]]] for h in gf.g_lts],
             "sts": [float(v) for v in rn.lntts.tolist()], "g_sts": [float(v) for v in rn.g.tolist()], "gb_sts": [float(v) for v in rn.g_bhw.tolist()],
-            "rbv": float(rbv), "heq": float(heq)}
+            "rbv": float(rbv), "heq": float(heq), **extra}
 
 
 def check_history(ctx, cases, results):
@@ -746,6 +846,35 @@ def check_history(ctx, cases, results):
                        + ("" if changed else " (the curve of the first call was returned unchanged)"))
         if bad:
             finding(ctx, f"history-stale-after-{mut}", bad, rep)
+        # short-time part against a NEW radial model of the exchanger's current state
+        if "fresh_sts" in r:
+            fs = r["fresh_sts"]
+            fk = [j for j, v in enumerate(fs["x"]) if v < lts[0]]
+            got_x, got_y, got_b = sec["gx"][:nk], sec["gy"][:nk], sec["by"][:nk]
+            if len(fk) != nk or not all(close(a, fs["x"][j], 1e-12) for a, j in zip(got_x, fk)):
+                finding(ctx, f"history-stale-short-time-after-{mut}", "short-time abscissae of the combined curve are not those of the exchanger's "
+                        "current short-time response (new RadialNumericalBH on the same exchanger)", rep)
+            elif not (all(close(a, fs["g"][j]) for a, j in zip(got_y, fk)) and all(close(a, fs["gb"][j]) for a, j in zip(got_b, fk))):
+                dev = max(abs(a - fs["g"][j]) for a, j in zip(got_y, fk))
+                finding(ctx, f"history-stale-short-time-after-{mut}", f"short-time part of the combined curve differs by {dev:.3g} from the exchanger's "
+                        f"current short-time response (last short-time g {got_y[-1]:.4f}, new radial model {fs['g'][fk[-1]]:.4f})", rep)
+            ctx.count("history_fresh_radial_compared")
+        # after a second compute_g_functions(): every stored height returns its stored curve; same as a fresh GHE in the final state
+        for e in r.get("at_stored", []):
+            ctx.count("history_recompute_stored_height_checked")
+            if not (len(e["got"]) == len(e["stored"]) and all(close(a, b) for a, b in zip(e["got"], e["stored"]))):
+                dev = max(abs(a - b) for a, b in zip(e["got"], e["stored"]))
+                finding(ctx, f"history-stale-family-after-{mut}", f"after the second compute_g_functions() interpolating at the stored height {e['h']} "
+                        f"is off the stored curve by {dev:.3g}", rep)
+                break
+        if "fresh_final" in r and r["fresh_final"] != sec:
+            note_broken(ctx, "history-correspondence", {"case": c, "what": "differs from a fresh GHE brought to the final state by one compute_g_functions()"})
+        if "shared" in r:
+            sh = r["shared"]
+            ctx.count("history_shared_gfunction:" + ("kept-separate" if sh["same_object_still"] and sh["first_has_new_object"] else "aliased"))
+            if sh["before"] != sh["after"] or sh["keys_before"] != sh["keys_after"]:
+                finding(ctx, "history-shared-gfunction-overwritten", "a GFunction object shared by two GHEs was overwritten when one of them called "
+                        f"compute_g_functions(): stored heights {sh['keys_before']} -> {sh['keys_after']}, the other exchanger's combined curve changed", rep)
         # ---- correspondence: fresh object in the final state, and the model's join of the final ingredients
         ok = True
         if r["fresh"] is not None and r["fresh"] != sec:
@@ -1019,7 +1148,9 @@ def run(ctx: core.Ctx):
                 "0..6 curves, all kinds, 1-3 successive calls, at / near / between / outside stored heights (distinct = curves x kind x position x "
                 "call number x outcome x target); real GHE objects H 20-400 m, alpha 0.3-2e-6 (distinct = H, alpha, heights, branch, pipe); "
                 "call histories on one GHE: grab, change one ingredient (g-function object replaced, compute_g_functions(), r_b table, borehole radius, "
-                "short-time response, or nothing), grab again at the same B/H; FLS anchor: distinct fields x heights incl. four fields of > 100 boreholes "
+                "short-time response, or nothing), grab again at the same B/H; simulate, in-place change of the live single-U exchanger (radius, grout, "
+                "pipe, soil k at fixed alpha), simulate, compare the short-time part with a new radial model; compute_g_functions twice with a narrowed "
+                "window / other depth in between; one GFunction shared by two GHEs; library radii within 1 mm / 1e-4 / 1e-6 m of the borehole radius; FLS anchor: distinct fields x heights incl. four fields of > 100 boreholes "
                 "(nine in thorough), threshold 1e-4 absolute and relative. Non-trivial = every case with at least one curve / non-degenerate build")
     ctx.trusted_base += [
         "translator translate/gen_gjoin.py (comparison operators of combine_sts_lts, tolerance, close_tolerance, kind ladder, required-curves table; "
@@ -1061,7 +1192,7 @@ def run(ctx: core.Ctx):
     check_real(ctx, rcases, rres)
 
     # 4b. call histories on one object
-    n_hist = 12 if quick else 72
+    n_hist = len(HISTORY_MUTATIONS) if quick else 6 * len(HISTORY_MUTATIONS)
     hcases = [gen_history_case(rng, k) for k in range(n_hist)]
     check_history(ctx, hcases, core.pool_map(history_worker, hcases))
 
